@@ -368,7 +368,7 @@ func specIsRejectErr(err error) bool { _, ok := err.(*RejectError); return ok }
 //@ func (*connection).sendWaitReply
 //@ nosafety nil-deref nil-iface
 //@ requires c != nil && msg != nil && specRealMsg(msg)
-//@ emits hsms.(transport).Write, hsms.(*ConnectionMetrics).incDataMsgSend, hsms.(*connection).dropNotSelected, hsms.(*ConnectionMetrics).incDataMsgDropNotSelected, hsms.(*connection).TCPDown, IsSelected:true, IsSelected:false, hsms.(*epoch).liveConn, hsms.(*ConnectionMetrics).incDataMsgInflight, hsms.(*ConnectionMetrics).decDataMsgInflight, hsms.(*ConnectionMetrics).incDataMsgErr, hsms.(*connection).sendAutoS9F9, hsms.(replyRegistry).register, hsms.(replyRegistry).deregister, hsms.(*connection).writeFrame, internal/pool.GetTimer, select.arm:timer.C, select.arm:e.ctx.Done(), select.arm:callerCtx.Done(), select.arm:ch
+//@ emits hsms.(transport).Write, hsms.(*ConnectionMetrics).incDataMsgSend, hsms.(*connection).dropNotSelected, hsms.(*ConnectionMetrics).incDataMsgDropNotSelected, hsms.(*connection).TCPDown, IsSelected:true, IsSelected:false, hsms.(*epoch).liveConn, hsms.(*ConnectionMetrics).incDataMsgInflight, hsms.(*ConnectionMetrics).decDataMsgInflight, hsms.(*ConnectionMetrics).incDataMsgErr, hsms.(*connection).sendAutoS9F9, hsms.(replyRegistry).register, hsms.(replyRegistry).deregister
 //@ ensures [gate]     specIsData(msg) && zzCalls("IsSelected:false") > 0 ==> zzCalls("hsms.(transport).Write") == 0 &&
 //@                    result1 == ErrNotSelectedState && zzCalls("hsms.(*ConnectionMetrics).incDataMsgDropNotSelected") == 1 && result0 == nil
 //@ ensures [once]     zzCalls("hsms.(transport).Write") <= 1 && zzCalls("hsms.(*ConnectionMetrics).incDataMsgDropNotSelected") <= 1
@@ -464,7 +464,7 @@ func specBadData(stream, function byte, w bool, item secs2.Item) bool {
 //@ func (*connection).WriteMessage
 //@ nosafety nil-deref nil-iface
 //@ requires c != nil && msg != nil && specRealMsg(msg)
-//@ emits hsms.(transport).Write, hsms.(*ConnectionMetrics).incDataMsgSend, hsms.(*connection).dropNotSelected, hsms.(*ConnectionMetrics).incDataMsgDropNotSelected, hsms.(*connection).TCPDown, IsSelected:true, IsSelected:false, hsms.(*epoch).liveConn, hsms.(*ConnectionMetrics).incDataMsgInflight, hsms.(*ConnectionMetrics).decDataMsgInflight, hsms.(*ConnectionMetrics).incDataMsgErr, hsms.(*connection).sendAutoS9F9, hsms.(replyRegistry).register, hsms.(replyRegistry).deregister, hsms.(*connection).writeFrame, internal/pool.GetTimer, select.arm:timer.C, select.arm:e.ctx.Done(), select.arm:callerCtx.Done(), select.arm:ch
+//@ emits hsms.(transport).Write, hsms.(*ConnectionMetrics).incDataMsgSend, hsms.(*connection).dropNotSelected, hsms.(*ConnectionMetrics).incDataMsgDropNotSelected, hsms.(*connection).TCPDown, IsSelected:true, IsSelected:false, hsms.(*epoch).liveConn, hsms.(*ConnectionMetrics).incDataMsgInflight, hsms.(*ConnectionMetrics).decDataMsgInflight, hsms.(*ConnectionMetrics).incDataMsgErr, hsms.(*connection).sendAutoS9F9, hsms.(replyRegistry).register, hsms.(replyRegistry).deregister
 //@ ensures [gate] specIsData(msg) && zzCalls("IsSelected:false") > 0 ==> zzCalls("hsms.(transport).Write") == 0 &&
 //@                result1 == ErrNotSelectedState && zzCalls("hsms.(*ConnectionMetrics).incDataMsgDropNotSelected") == 1
 
@@ -522,6 +522,7 @@ func zzChanInv_replyResult(v replyResult) bool { return v.err != nil || specReal
 
 func zzArg[T any](name string, i int) T { panic("spec only") }
 func zzRecv[T any](name string) T       { panic("spec only") }
+func zzSeq(name string) int             { panic("spec only") }
 
 //@ func (replyRegistry).register
 //@ nosafety nil-deref nil-iface
